@@ -58,6 +58,28 @@ def main():
         now = ", ".join(f"{p}: {'caught' if v['rc'] == 1 else 'MISSED'}" for p, v in r.items()) or "(not re-run)"
         needs = (meta.get("needs") or s.get("note", "")).replace("\n", " ").replace("|", "/")[:230]
         out.append(f"| {s['id']} | {', '.join(s['props'])} | {needs} | {first} | {now}{'; ' + note[:260].replace('|', '/') if first != 'caught' else ''} |")
+    # first-run statistics per wave (a = first round ... f = sixth round)
+    import collections
+    waves = collections.OrderedDict()
+    for s_ in seeds:
+        mm = re.match(r"s\d\d([a-f]?)_", s_["id"])
+        w = (mm.group(1) if mm else "") or "a"
+        meta = {}
+        mp = os.path.join(HERE, "seeded", s_["id"], "meta.json")
+        if os.path.exists(mp):
+            meta = json.load(open(mp))
+        note = meta.get("confirmed", {}).get("note", "")
+        missed = ("missed" in note or "harness error" in note.lower() or "not in the C07 alphabet" in note)
+        waves.setdefault(w, [0, 0])
+        waves[w][0] += 1
+        waves[w][1] += 0 if missed else 1
+    out += ["", "First-run outcome per seeding round (target check, quick tier, as the check stood when the seed arrived; every "
+            "miss was followed by a generalised strengthening, after which all seeds are caught):", "",
+            "| round | seeds | caught at first run by the target check | instruction to the sub-agents |", "|---|---|---|---|"]
+    how = {"a": "property text only", "b": "property text + 'not the mechanism of round a'", "c": "+ suggested mechanism areas (mine) to diversify",
+           "d": "+ suggested mechanism areas", "e": "+ suggested mechanism areas", "f": "property text + list of the five used mechanisms, free choice otherwise"}
+    for w, (n_, k_) in waves.items():
+        out.append(f"| {w} | {n_} | {k_} | {how.get(w, '')} |")
     out += ["", END]
     p = os.path.join(HERE, "DESIGN.md")
     txt = open(p).read()
